@@ -179,9 +179,9 @@ func (t *tally) note(sec *engine.Section) {
 	var sb strings.Builder
 	for _, k := range keys {
 		e := t.m[k]
-		fmt.Fprintf(&sb, "%s: accepted=%d rejected=%d refused-at-construction=%d; ", k, e[0], e[1], e[2])
+		fmt.Fprintf(&sb, "%s=%d/%d/%d ", k, e[0], e[1], e[2])
 	}
-	sec.Note("library verdicts per alteration class: %s", sb.String())
+	sec.Note("library verdicts per alteration class (accepted/rejected/refused-at-construction): %s", sb.String())
 }
 
 const (
